@@ -31,8 +31,21 @@ def load_set(name):
             continue
         txt = open(os.path.join(d, fn)).read()
         files[fn[:-3].replace("__", "/") + ".rs"] = txt
+    gen = os.path.join(d, "gen.py")
+    if os.path.exists(gen):
+        # harnesses generated mechanically from the working tree (e.g. one per status-named constructor)
+        p = subprocess.run(["python3", gen, REPO], capture_output=True, text=True)
+        if p.returncode != 0:
+            raise RuntimeError("generator %s failed: %s" % (gen, p.stderr[-400:]))
+        for rel, txt in json.loads(p.stdout).items():
+            if rel.startswith("_"):
+                continue
+            files[rel] = files.get(rel, "") + "\n" + txt
+    for rel, txt in files.items():
         for m in _H.finditer(txt):
             harnesses.append({"set": name, "harness": m.group(3), "class": m.group(1), "bound": m.group(2)})
+        for m in re.finditer(r"// UNSUPPORTED-PARAMS ([^\n]*)", txt):
+            harnesses.append({"set": name, "harness": "generator:" + m.group(1), "class": "complete", "bound": None, "unsupported": True})
     return files, harnesses
 
 
@@ -60,6 +73,9 @@ def make_scratch(sets):
 
 
 def run_harness(scratch, h, timeout):
+    if h.get("unsupported"):
+        h.update(status="UNSUPPORTED", seconds=0, output="the harness generator cannot synthesise arguments for " + h["harness"])
+        return h
     cmd = ["cargo", "kani", "-Z", "function-contracts", "-Z", "stubbing", "-Z", "concrete-playback",
            "--concrete-playback=print", "--harness", h["harness"]]
     env = dict(os.environ, CARGO_NET_OFFLINE="true")
@@ -81,6 +97,9 @@ def run_harness(scratch, h, timeout):
         m = re.search(r"Concrete playback unit test for[^\n]*\n```\n(.*?)```", out, re.S)
         if m:
             h["counterexample"] = m.group(1)
+        if not fc:
+            # "FAILED" without a failed check is a tool failure (solver killed, out of memory, ...), not a verdict
+            h["status"] = "ERROR"
     else:
         h["status"] = "ERROR"
     return h
